@@ -9,6 +9,7 @@ CONSTANTS
   InitSeq <- EmptySeq
   InitPatterns = {}
   SolidInits = {}
+  GuessShifts = {1}
   GridProblems <- EmptySet
   GridStates <- EmptySet
   MaxChain = 0
